@@ -289,7 +289,7 @@ fn big_box_scene(rng: &mut Rng) -> Prog {
     use crate::gen_::shape::B;
     let mut b = B::new();
     let (x, y, z) = (b.var(0), b.var(1), b.var(2));
-    let mut one = |b: &mut B, rng: &mut Rng| {
+    let one = |b: &mut B, rng: &mut Rng| {
         let c = [rng.uniform(-0.15, 0.15) as f32, rng.uniform(-0.15, 0.15) as f32, rng.uniform(-0.15, 0.15) as f32];
         let h = [rng.uniform(0.3, 0.55) as f32, rng.uniform(0.3, 0.55) as f32, rng.uniform(0.3, 0.55) as f32];
         let mut m = None;
